@@ -2,13 +2,13 @@
 (* Case sets for the key-exchange runs: every leading-zero corner of every fixed-width value
    (C06) and every single lie of the server (C07), as enumerated by Handshake.tla. *)
 EXTENDS Integers, Sequences, FiniteSets, TLC, Json, IOUtils, SequencesExt
-H == INSTANCE Handshake WITH Dev <- {}, SkipCheck <- {}, LZ <- {0, 1, 2}, MaxAttempts <- 2, memKey <- 0, attempt <- 0,
+H == INSTANCE Handshake WITH Dev <- {}, SkipCheck <- {}, LZ <- {0, 1, 2}, MaxAttempts <- 2, memKey <- 0, fpSeen <- 0, attempt <- 0,
        lz <- [f \in {} |-> 0], lie <- 0, pc <- 0, stored <- 0, encSent <- 0, cKey <- 0, cSalt <- 0, sKey <- 0, sSalt <- 0
 
 \* harness names of the values whose leading bytes can be forced
 Corners == {"nonce", "server_nonce", "new_nonce", "hash1", "rsa", "g_a", "g_b", "g_ab"}
 CornerCases == {[corner |-> c, lz |-> k] : c \in Corners, k \in {1, 2}}
-                 \cup {[corner |-> c, lz |-> 0] : c \in {"", "pq_big", "pq_mid", "pq_small"}}
+                 \cup {[corner |-> c, lz |-> 0] : c \in {"", "pq_big", "pq_mid", "pq_small", "pq_62", "pq_63", "gb_tiny"}}
 
 Hows(l) == IF l.field = "kind" THEN (IF l.step = "dhGen" THEN {"retry", "fail"} ELSE {"fail"})
            \* "no offered fingerprint matches": one foreign fingerprint, several foreign ones, or none at all
